@@ -209,12 +209,28 @@ func RunLeechers(c *sim.Ctx) {
 			terminating := false              // a Terminate call on another goroutine is in progress
 			registered := map[string]bool{}   // as the application sees it: RegisterPeer returned / UnregisterPeer returned
 			unregistering := map[string]int{} // UnregisterPeer calls in progress on another goroutine
+			// calls armed by a stimulus are started, each on its own goroutine, by the next callback the leecher makes
+			// (mostly from its ticker goroutine, inside the critical section); the callback then yields the processor
+			// once so that they run up to the leecher's lock.  No two timers share an instant this way.
+			var armed []func()
+			arm := func(f func()) {
+				async.Add(1)
+				ml.do(func() { armed = append(armed, f) })
+			}
+			launchArmed := func() {
+				var fs []func()
+				ml.do(func() { fs, armed = armed, nil })
+				for _, f := range fs {
+					go f()
+				}
+				if len(fs) > 0 || yieldInCallbacks {
+					runtime.Gosched()
+				}
+			}
 			var l *basestreamleecher.BaseLeecher
 			l = basestreamleecher.New(recheck, basestreamleecher.Callbacks{
 				SelectSessionPeerCandidates: func() []string {
-					if yieldInCallbacks {
-						runtime.Gosched()
-					}
+					launchArmed()
 					var r []string
 					for p := range l.Peers {
 						r = append(r, p)
@@ -223,9 +239,7 @@ func RunLeechers(c *sim.Ctx) {
 					return r
 				},
 				ShouldTerminateSession: func() (r bool) {
-					if yieldInCallbacks {
-						runtime.Gosched()
-					}
+					launchArmed()
 					ml.do(func() { r = flag })
 					return r
 				},
@@ -263,9 +277,7 @@ func RunLeechers(c *sim.Ctx) {
 					})
 				},
 				OngoingSession: func() (r bool) {
-					if yieldInCallbacks {
-						runtime.Gosched()
-					}
+					launchArmed()
 					ml.do(func() { r = ongoing != "" })
 					return r
 				},
@@ -308,13 +320,10 @@ func RunLeechers(c *sim.Ctx) {
 						}
 					})
 				case "unregister_at_next_tick":
-					// another goroutine of the application unregisters the peer at the very instant of the leecher's next
-					// tick: both become runnable together, and with yielding callbacks they interleave
-					tick := (t/recheck + 1) * recheck
-					async.Add(1)
-					go func() {
+					// another goroutine of the application unregisters the peer while the leecher is inside its next
+					// routine: the call is started from the routine's first callback (see launchArmed)
+					arm(func() {
 						defer async.Done()
-						time.Sleep(tick - now())
 						// the call takes effect somewhere between now and its return: until then the peer may still be chosen
 						ml.do(func() {
 							probes.inc("unregister_concurrent_with_tick")
@@ -328,14 +337,11 @@ func RunLeechers(c *sim.Ctx) {
 								rec.violation("leecher-peer", "leecher-peer/session-with-unregistered-peer", "t=%v: UnregisterPeer(%s), called concurrently with a tick, returned but a session with that peer is running", now(), p)
 							}
 						})
-					}()
+					})
 				case "terminate_at_next_tick":
-					// Terminate from a second goroutine at the very instant of a tick
-					tick := (t/recheck + 1) * recheck
-					async.Add(1)
-					go func() {
+					// Terminate from a second goroutine while the leecher is inside its next routine
+					arm(func() {
 						defer async.Done()
-						time.Sleep(tick - now())
 						first := false
 						ml.do(func() {
 							if !terminated && !terminating {
@@ -354,7 +360,7 @@ func RunLeechers(c *sim.Ctx) {
 								rec.violation("leecher-session", "leecher-session/alive-after-terminate", "t=%v: Terminate, called concurrently with a tick, returned but a session with %s is running", now(), ongoing)
 							}
 						})
-					}()
+					})
 				case "terminate":
 					first := false
 					ml.do(func() {
@@ -388,6 +394,12 @@ func RunLeechers(c *sim.Ctx) {
 				})
 			})
 			settle(3 * recheck)
+			// calls that no callback picked up any more (the leecher stopped ticking): made now, one after the other
+			var left []func()
+			ml.do(func() { left, armed = armed, nil })
+			for _, f := range left {
+				f()
+			}
 			async.Wait()
 			simEnd = now()
 			wasTerminated := false
